@@ -73,7 +73,7 @@ PROPS = {
         "assumptions": ["Ed25519 verification is a parameter: the verdict for each (key, signature) pair is the one the real verify returned"],
     },
     "C15": {
-        "modules": ["C15", "PinC15"],
+        "modules": ["C15", "C15Block", "PinC15"],
         "streams": [{"name": "seal", "quick": 180, "thorough": 7200}],
         "projection": "settlement",
         "oracles": ["settlement"],
